@@ -120,6 +120,12 @@ def run(pid, tier, only_cases=None, debug=False):
             if os.path.exists(a) and os.path.exists(b) and open(a, "rb").read() == open(b, "rb").read():
                 identical += 1
 
+        # ---- stack directories, both directions, validated against TraceStore
+        sviols, sstats, nstacks = [], dict(events=0), 0
+        if only_cases is None:
+            sviols, srej, sstats, nstacks = stacks(pid, tier, sc, mod, cdrv, rng)
+            if srej:
+                raise C.Inconclusive("stack histories rejected by TraceStore: %s" % srej[:3])
         viols, rej, vstats = S.validate(traces, sc, module="TraceTable", chunk=15, jvms=12, debug=debug)
         tbyid = {t["id"]: t for t in traces}
         mine = [v for v in viols if any(v[0].startswith(p) for p in PREFIXES)]
@@ -145,6 +151,12 @@ def run(pid, tier, only_cases=None, debug=False):
                   (sig.split(":")[0], chk, line, ev.get("op"), tid, len(c["refs"]), len(c["logs"]), c["blocksize"], c["unaligned"], c["hash"], len(lst),
                    ("; " + str(ev.get("err"))[:200]) if ev.get("err") else ""))
             nviol += 1
+        for chk, tid, line in sviols[:1]:
+            path = C.save_replay(pid, "stack-%s-%d" % (chk, seed), {"property": pid, "check": chk, "trace": tid, "line": line, "count": len(sviols)})
+            print("VIOLATION property=%s replay=%s" % (pid, path))
+            print("  stack directory %s: %s differs from the specification at step %d (%d failures)" %
+                  ("written by Go, read by C" if tid.startswith("SA-") else "written by C, read by Go", chk, line, len(sviols)))
+            nviol += 1
         if rej and nviol == 0:
             raise C.Inconclusive("cases rejected by TraceTable: %s" % rej[:3])
         na = sum(1 for t in traces if t["id"].startswith("A-"))
@@ -153,10 +165,10 @@ def run(pid, tier, only_cases=None, debug=False):
                    samples=[{"case": {k: v for k, v in cases[0].items() if k in ("id", "blocksize", "restart", "unaligned", "hash", "exact", "min", "max")},
                              "refs": cases[0]["refs"][:2], "logs": cases[0]["logs"][:1]}],
                    go_writes_c_reads=na, c_writes_go_reads=nb, byte_identical_files=identical, cases=len(cases),
-                   events_validated=vstats["events"], known_findings_seen=sorted(seen_known), stacks="not covered yet (tables only)")
+                   events_validated=vstats["events"] + sstats["events"], known_findings_seen=sorted(seen_known), stack_directories_exchanged=nstacks)
         C.write_evidence(pid, tier, LEVEL, cov, time.time() - t0, nviol,
                          assumptions=["names NUL-free (C strings)", "the C code is compiled with gcc and the system zlib from /repo/c",
-                                      "stack directories are not exchanged yet; tables only"])
+                                      "stack directories: single-writer histories (Add, CompactAll) written by one implementation, final merged view read by the other"])
         print("%s %s: %d cases, %d Go->C, %d C->Go, %d byte-identical, %d violations, %.1fs" % (pid, tier, len(cases), na, nb, identical, nviol, time.time() - t0))
         return 1 if nviol else 0
     finally:
@@ -167,3 +179,93 @@ def replay(pid, path):
     with open(path) as f:
         rp = json.load(f)
     return run(pid, "quick", only_cases=[rp["case"]], debug=True)
+
+
+
+def stacks(pid, tier, sc, mod, cdrv, rng):
+    """SA: a history executed by the Go stack, the directory then opened by the C stack (merged view);
+    SB: the same kind of history executed by the C stack (reftable_stack_add / compact_all), the directory then opened by Go.
+    Both final views must be the view Store.tla computes from the transactions (TraceStore, tag C15)."""
+    import check_store as CS
+    drvs = C.gobuild(mod, "drvstore", os.path.join(sc, "drvstore"))
+    n = 40 if tier == "quick" else 600
+    hists = []
+    for i in range(n):
+        g = S.HistGen(rng, rng.sample(S.NAMES_PLAIN[:9] + ["refs/heads/zz"], rng.randint(2, 6)))
+        g.cfg["skipnamecheck"] = False
+        g.steps.append({"op": "open", "h": 1})
+        for t in range(rng.randint(1, 7)):
+            p = g.part()
+            if t == 0:
+                # an anchor ref that is never touched again: the stack never becomes empty, so update indices never restart
+                # (the C writer's automatic compactions are not observed step by step)
+                p["refs"] = [r for r in p["refs"] if r["n"] != "refs/anchor"] + [{"n": "refs/anchor", "v": ["v", "A", ""]}]
+            for l in p["logs"]:
+                if not l.get("del"):
+                    l["msg"] = l["msg"].strip() if not g.cfg["exact"] else l["msg"]
+                    if not (l["old"] or l["new"] or l["user"] or l["email"] or l["time"] or l["tz"] or l["msg"]):
+                        l["user"] = "x"
+            # conflicting names (refs/heads/b vs refs/heads/b/x) are judged alike by both; keep them
+            g.add(part=p, auto=True)
+            if rng.random() < 0.2:
+                g.steps.append({"op": "compact", "h": 1, "all": True})
+        hists.append(g)
+    traces = []
+    # ---- SA: Go writes
+    goh = []
+    for i, g in enumerate(hists):
+        h = g.history("SA-%d" % i)
+        h["dir"] = os.path.join(sc, "gostack-%d" % i)
+        h["nh"] = 2
+        goh.append(h)
+    gouts = S.run_driver(drvs, goh, sc)
+    for h, o in zip(goh, gouts):
+        rk = {n: i + 1 for i, n in enumerate(o["strs"])}
+        inf = os.path.join(sc, h["id"] + ".txt")
+        with open(inf, "w") as f:
+            f.write(cside.stack_input(h, False))
+        p = subprocess.run([cdrv, "stackread", inf, h["dir"]], stdout=subprocess.PIPE, stderr=subprocess.PIPE, text=True, timeout=120)
+        lines = [l for l in p.stdout.split("\n") if l.strip()]
+        shape = [e for e in o["events"] if "dirshape" in e][-1]["dirshape"] if any("dirshape" in e for e in o["events"]) else []
+        ev = list(o["events"])
+        if p.returncode != 0 or not lines or '"view"' not in lines[-1]:
+            ev += [{"op": "open", "h": 2, "res": "other", "shape": shape, "err": "C stack reader failed rc=%d %s" % (p.returncode, p.stderr[-200:])}]
+        else:
+            ev += [{"op": "open", "h": 2, "res": "ok", "shape": shape}, cside.stack_view_event(rk, lines[-1], 2)]
+        traces.append({"id": h["id"], "nh": 2, "names": o["names"], "strs": o["strs"], "events": ev})
+        shutil.rmtree(h["dir"], ignore_errors=True)
+    # ---- SB: C writes
+    for i, g in enumerate(hists):
+        h = g.history("SB-%d" % i)
+        d = os.path.join(sc, "cstack-%d" % i)
+        os.makedirs(d)
+        inf = os.path.join(sc, h["id"] + ".txt")
+        with open(inf, "w") as f:
+            f.write(cside.stack_input(h, True))
+        p = subprocess.run([cdrv, "stackwrite", inf, d], stdout=subprocess.PIPE, stderr=subprocess.PIPE, text=True, timeout=120)
+        lines = [json.loads(l) for l in p.stdout.split("\n") if l.strip()]
+        crc = [l for l in lines if l["op"] in ("add", "compact")]
+        # the Go run of the same history supplies the model-level records of every transaction (expected normalised content)
+        go_events = [e for e in gouts[i]["events"] if e["op"] in ("add", "compact")]
+        ev = [{"op": "open", "h": 1, "res": "ok", "shape": []}]
+        ok = p.returncode == 0 and len(crc) == len(go_events)
+        if ok:
+            for ge, ce in zip(go_events, crc):
+                if ge["op"] == "add":
+                    res = "ok" if ce["rc"] == 0 else "rejected" if ce["rc"] in (-9, -10) else "lock" if ce["rc"] == -5 else "other"
+                    ev.append(dict(ge, res=res, dirshape=[], auto=False, foreign=True, rc=ce["rc"]))
+                else:
+                    ev.append(dict(ge, res="ok" if ce["rc"] == 0 else "other", dirshape=[]))
+        # Go opens the C-written directory
+        rd = {"id": "SBr-%d" % i, "nh": 2, "cfg": h["cfg"], "universe": gouts[i]["strs"], "dir": d,
+              "steps": [{"op": "open", "h": 2}, {"op": "view", "h": 2, "tag": "C15", "hasraw": False}]}
+        ro = S.run_driver(drvs, [rd], sc)[0]
+        if not ok:
+            ev.append({"op": "open", "h": 2, "res": "other", "shape": [], "err": "C stack writer failed rc=%d %s" % (p.returncode, p.stderr[-200:])})
+        else:
+            ev += ro["events"]
+        traces.append({"id": h["id"], "nh": 2, "names": gouts[i]["names"], "strs": gouts[i]["strs"], "events": ev})
+        shutil.rmtree(d, ignore_errors=True)
+    viols, rej, stats = S.validate(traces, sc, module="TraceStore", chunk=10, jvms=12, debug=bool(os.environ.get("VERIF_DEBUG")))
+    mine = [v for v in viols if v[0].startswith("C15_") or v[0] in ("C10_OpenFails", "C10_Readable")]
+    return mine, rej, stats, len(traces)
